@@ -31,7 +31,7 @@ def run(tier, v):
                 scen.append({"crate": crate, "kind": kind, "n": nseg, "len": 1400, "cap": 1, "conns": 1, "server": server})
             scen.append({"crate": crate, "kind": kind, "n": nseg // 10, "len": 1400, "cap": 10, "conns": 10, "server": False})
             if tier == "thorough":
-                scen.append({"crate": crate, "kind": kind, "n": 60, "len": 1400, "cap": 1000, "conns": 1000, "server": False})
+                scen.append({"crate": crate, "kind": kind, "n": 30, "len": 1400, "cap": 400, "conns": 400, "server": False})
                 scen.append({"crate": crate, "kind": kind, "n": nseg, "len": 100, "cap": 1, "conns": 1, "server": False})
     # scripted connections: what happens AFTER something was reported, in both directions, with retransmissions, HTTP/2
     from props import c10
